@@ -39,7 +39,7 @@ import (
 // they cannot see: how the binary itself opens, configures and re-opens the
 // database.
 
-const c06BinWait = 90 * time.Second
+const c06BinWait = 150 * time.Second
 
 type c06Log struct {
 	l     wh.LogCfg
